@@ -44,6 +44,9 @@ pub enum TOp {
     Burst(u16, u8),
     /// n lookups in a row (keys round robin), one atomic region like Burst
     GBurst(u16, u8),
+    /// n inserts (keys round robin), NOT atomic: one switch point (`fb.next`) before every
+    /// insert; used with the fair adversary (family `fair`)
+    FBurst(u16, u8),
 }
 
 impl TOp {
@@ -60,6 +63,7 @@ impl TOp {
             TOp::IterHoldGet(k) => format!("iterholdget({k})"),
             TOp::Burst(n, k) => format!("burst({n},{k})"),
             TOp::GBurst(n, k) => format!("gburst({n},{k})"),
+            TOp::FBurst(n, k) => format!("fburst({n},{k})"),
         }
     }
     pub fn parse(s: &str) -> TOp {
@@ -80,11 +84,12 @@ impl TOp {
             "iterholdget" => TOp::IterHoldGet(a[0] as u8),
             "burst" => TOp::Burst(a[0], a[1] as u8),
             "gburst" => TOp::GBurst(a[0], a[1] as u8),
+            "fburst" => TOp::FBurst(a[0], a[1] as u8),
             _ => panic!("bad thread op {s}"),
         }
     }
     fn is_burst(&self) -> bool {
-        matches!(self, TOp::Burst(..) | TOp::GBurst(..))
+        matches!(self, TOp::Burst(..) | TOp::GBurst(..) | TOp::FBurst(..))
     }
     fn writes_key(&self) -> Option<u8> {
         match *self {
@@ -181,7 +186,14 @@ struct St {
     /// how often in a row a thread was let run again from its yield point because nobody
     /// else could run
     solo_spins: Vec<u32>,
+    /// the fair adversary decides where the replayed prefix ends (family `fair`): a thread
+    /// that is applying queued ops hands over after every op, a thread in an `FBurst`
+    /// hands back after every insert
+    fair: bool,
 }
+
+/// inserts of `FBurst` ops completed so far in this execution
+static FB_DONE: AtomicU64 = AtomicU64::new(0);
 
 pub struct Shared {
     m: Mutex<St>,
@@ -196,7 +208,7 @@ const STUTTER_K: u32 = 4;
 const STUTTER_BODY: [&str; 3] = ["chk.wo", "chk.ao", "map.remove_if"];
 
 impl Shared {
-    fn new(n: usize, prefix: Vec<(u16, u16)>, max_events: u64) -> Arc<Shared> {
+    fn new(n: usize, prefix: Vec<(u16, u16)>, max_events: u64, fair: bool) -> Arc<Shared> {
         Arc::new(Shared {
             m: Mutex::new(St {
                 status: vec![Status::Running; n],
@@ -213,6 +225,7 @@ impl Shared {
                 granted: vec![0; n],
                 stutter: vec![("", 0, 0); n],
                 solo_spins: vec![0; n],
+                fair,
             }),
             cv: Condvar::new(),
             seq: AtomicU64::new(1),
@@ -310,6 +323,9 @@ impl Shared {
                 return false;
             }
             c as usize
+        } else if st.fair && me_enabled && enabled.len() > 1 && matches!(label, "wr.apply" | "rd.apply" | "fb.next") {
+            // the fair adversary: consumer and producer take turns, one op each
+            1
         } else {
             0
         };
@@ -441,6 +457,8 @@ pub struct Rec {
     pub t1: i64,
     pub obs: Obs,
     pub completed: bool,
+    /// inserts of FBurst ops (any thread) that had completed when this call returned
+    pub fb_done: u64,
 }
 
 pub struct Exec {
@@ -462,7 +480,7 @@ fn thread_body(c: &SC, clock: &MockClock, cfg: &Cfg, sh: &Arc<Shared>, me: usize
         let vid = vid_of(me, idx);
         let start = sh.tick();
         let t0 = clock.elapsed().as_millis() as i64;
-        let mut rec = Rec { thread: me as i32, idx, op: *op, vid, start, end: u64::MAX, t0, t1: i64::MAX, obs: Obs::Unit, completed: false };
+        let mut rec = Rec { thread: me as i32, idx, op: *op, vid, start, end: u64::MAX, t0, t1: i64::MAX, obs: Obs::Unit, completed: false, fb_done: 0 };
         let slot = {
             let mut r = recs.lock().unwrap();
             r.push(rec.clone());
@@ -531,6 +549,14 @@ fn thread_body(c: &SC, clock: &MockClock, cfg: &Cfg, sh: &Arc<Shared>, me: usize
                 sh.m.lock().unwrap().atomic[me] = false;
                 Obs::Unit
             }
+            TOp::FBurst(n, keys) => {
+                for i in 0..n {
+                    sched.event(Event::Switch("fb.next"));
+                    c.insert(K::new((i % keys.max(1) as u16) as u8), V::new(vid + i as u32, 1));
+                    FB_DONE.fetch_add(1, SeqCst);
+                }
+                Obs::Unit
+            }
             TOp::Burst(n, keys) => {
                 sh.m.lock().unwrap().atomic[me] = true;
                 for i in 0..n {
@@ -554,6 +580,7 @@ fn thread_body(c: &SC, clock: &MockClock, cfg: &Cfg, sh: &Arc<Shared>, me: usize
         rec.end = sh.tick();
         rec.t1 = clock.elapsed().as_millis() as i64;
         rec.completed = true;
+        rec.fb_done = FB_DONE.load(SeqCst);
         recs.lock().unwrap()[slot] = rec;
     }
 }
@@ -584,7 +611,7 @@ pub fn run_once(prog: &Program, hasher: &TableHasher, prefix: &[(u16, u16)], max
         };
         if let Some(t) = top {
             let t1 = sut.clock().elapsed().as_millis() as i64;
-            recs0.push(Rec { thread: -1, idx: i, op: t, vid: pvid, start: 0, end: 0, t0, t1, obs: Obs::Unit, completed: true });
+            recs0.push(Rec { thread: -1, idx: i, op: t, vid: pvid, start: 0, end: 0, t0, t1, obs: Obs::Unit, completed: true, fb_done: 0 });
         }
         if op.takes_vid() {
             pvid += 1;
@@ -593,7 +620,7 @@ pub fn run_once(prog: &Program, hasher: &TableHasher, prefix: &[(u16, u16)], max
         // thread -2) for the time-to-idle clause only
         if let (Op::Get(k), Ok(obs @ Obs::Val(Some(_)))) = (op, &r) {
             let t1 = sut.clock().elapsed().as_millis() as i64;
-            recs0.push(Rec { thread: -2, idx: i, op: TOp::Get(*k), vid: 0, start: 0, end: 0, t0, t1, obs: obs.clone(), completed: true });
+            recs0.push(Rec { thread: -2, idx: i, op: TOp::Get(*k), vid: 0, start: 0, end: 0, t0, t1, obs: obs.clone(), completed: true, fb_done: 0 });
         }
     }
     let (cache, clock) = match &sut {
@@ -601,7 +628,8 @@ pub fn run_once(prog: &Program, hasher: &TableHasher, prefix: &[(u16, u16)], max
         _ => panic!("schedx runs the sync cache only"),
     };
     let n = prog.threads.len();
-    let sh = Shared::new(n, prefix.to_vec(), max_events);
+    FB_DONE.store(0, SeqCst);
+    let sh = Shared::new(n, prefix.to_vec(), max_events, cfg.alpha == "fair");
     let recs = Arc::new(Mutex::new(Vec::<Rec>::new()));
     let mut handles = Vec::new();
     let panics = Arc::new(Mutex::new(Vec::<String>::new()));
@@ -766,6 +794,28 @@ fn check_history(prog: &Program, all: &[Rec], viol: &mut Vec<Violation>) {
             };
             viol.push(Violation { prop: "C04", sig: "sched:write-log-above-its-bound".into(), detail: d.clone(), witness: String::new() });
             viol.push(Violation { prop: "C09", sig: "sched:write-log-above-its-bound".into(), detail: d, witness: String::new() });
+        }
+    }
+    // A call that runs the pending maintenance does a bounded amount of work: a pass
+    // applies what the logs held when each of its (at most MAX_SYNC_REPEATS + 1) rounds
+    // began, so it ends although another thread keeps writing. Under the fair adversary
+    // (consumer and producer take turns, one op each) a call that returns only when the
+    // producer has no insert left would never return beside a producer that does not stop.
+    let fb_total: u64 = prog.threads.iter().flatten().map(|o| if let TOp::FBurst(n, _) = o { *n as u64 } else { 0 }).sum();
+    if fb_total > 0 {
+        let k = mini_moka::verif::constants();
+        let most = ((k.max_sync_repeats + 1) * k.write_log_size) as u64;
+        for r in all {
+            if r.thread >= 0 && r.completed && !matches!(r.op, TOp::FBurst(..)) && fb_total > most && r.fb_done >= fb_total {
+                let starts_before_end = all.iter().any(|x| matches!(x.op, TOp::FBurst(..)) && x.thread != r.thread && r.start < x.end);
+                if starts_before_end {
+                    let d = format!(
+                        "T{}#{} {} returned only after the other thread had completed all its {fb_total} inserts (one per op the call applied); a maintenance pass applies at most {most} queued writes, so the call can only have ended because the writer stopped",
+                        r.thread, r.idx, r.op.text()
+                    );
+                    viol.push(Violation { prop: "C09", sig: "sched:call-ends-only-when-writers-stop".into(), detail: d, witness: String::new() });
+                }
+            }
         }
     }
     // values written inside a Burst are not recorded one by one
@@ -1127,7 +1177,7 @@ pub fn explore(prog: &Program, bound: u32, max_schedules: u64, deadline: Instant
     let mut outcomes: HashSet<u64> = HashSet::new();
     let mut sigs: HashSet<(String, String)> = HashSet::new();
     let prune = crate::seqx::Prune::from_env();
-    let max_events = 40000 + prog.threads.iter().flatten().map(|o| if let TOp::Burst(n, _) | TOp::GBurst(n, _) = o { *n as u64 * 40 } else { 0 }).sum::<u64>();
+    let max_events = 40000 + prog.threads.iter().flatten().map(|o| if let TOp::Burst(n, _) | TOp::GBurst(n, _) | TOp::FBurst(n, _) = o { *n as u64 * 40 } else { 0 }).sum::<u64>();
     // determinism: the first schedule twice
     journal.write(&witness(prog, &[]));
     let a = run_once(prog, &hasher, &[], max_events);
@@ -1734,6 +1784,23 @@ pub fn family(name: &str, tier: &str) -> Vec<Program> {
                             c.nkeys = 3;
                             out.push(Program { cfg: c, prefix: pre.clone(), threads: vec![rd.clone(), wr.clone()] });
                         }
+                    }
+                }
+            }
+        }
+        // the fair adversary (one schedule per program, not a search): a thread that runs
+        // the maintenance beside a writer that produces one op for every op applied
+        "fair" => {
+            let k = mini_moka::verif::constants();
+            let n = ((k.max_sync_repeats + 1) * k.write_log_size + 200) as u16;
+            for cap in [None, Some(8u64)] {
+                for pre in [vec![Op::Ins(0, 1), Op::Ins(1, 1), Op::Ins(2, 1)], vec![Op::Ins(0, 1), Op::Sync, Op::Ins(1, 1), Op::Get(0), Op::Ins(2, 1), Op::Get(1)]] {
+                    for (t0, beyond) in [(TOp::Sync, true), (TOp::Sync, false), (TOp::Ins(3, 1), false), (TOp::Get(0), false)] {
+                        let mut c = base(cap, None);
+                        c.nkeys = 12;
+                        c.beyond = beyond;
+                        c.alpha = "fair".into();
+                        out.push(Program { cfg: c, prefix: pre.clone(), threads: vec![vec![t0], vec![TOp::FBurst(n, 8)]] });
                     }
                 }
             }
